@@ -40,13 +40,15 @@ SAMPLER = make_sampler()
 
 def mons():
     return [M.m_terminates, M.m_limits, M.m_permits_restored, M.m_stream_order, M.m_success_means_all_ok,
-            lambda r: M.m_download_window(r, r.manager._config.max_in_memory_download_chunks)]
+            lambda r: M.m_download_window(r, r.manager._config.max_in_memory_download_chunks),
+            lambda r: M.m_window_capacity(r, r.manager._config.max_in_memory_download_chunks)]
 
 
 def specs(ctx):
     s = sysrun.specs_mixed(ctx, 500 if ctx.thorough() else 110, limits=(1, 2, 3), with_victims=True, tag='c10')
     # writes to one destination: one thread at a time, in queue order
     s += sysrun.specs_stream_order(ctx, 400 if ctx.thorough() else 120)
+    s += sysrun.specs_shared_window(ctx, 500 if ctx.thorough() else 150)
     return s
 
 
